@@ -282,6 +282,7 @@ Definition iterm2_ok_model (c : icase) : bool :=
   let m := ic_method c in
   let rw := n (ic_rw c) in let rh := n (ic_rh c) in
   let b := iterm2_branch m (ic_animated c) false in
+  let m := iterm2_effective_method m (ic_animated c) false in
   let (w, h) := pixel_size m rw rh (n (ic_cw c)) (n (ic_ch c)) (n (ic_ow c), n (ic_oh c)) in
   let rgba := out_rgba (ic_alpha c) (ic_mode_class c =? 0) in
   let jpeg := iterm2_jpeg (ic_jq c) rgba in
@@ -329,7 +330,8 @@ Definition iterm2_ok_spec (c : icase) : bool :=
   (* the untouched source file only under the documented conditions *)
   && (negb (ic_untouched c)
       || (ic_readable c
-          && ((method_eqb (ic_method c) Whole && ic_rff c && negb (ic_animated c))
+          && (((method_eqb (ic_method c) Whole || method_eqb (ic_method c) Anim)
+               && ic_rff c && negb (ic_animated c))       (* ANIM on a non-animated image = WHOLE *)
               || (method_eqb (ic_method c) Anim && ic_animated c))))
   (* re-encoded: PNG, or JPEG only when enabled and the render has no transparency;
      a native animation may be any animated format *)
